@@ -38,6 +38,14 @@ Proof. exact B2_stands_for_Z2. Qed.
 Theorem C16_B3_stands_for_Fp3 : forall p beta, stands_for (B3 p beta) (Z3 p beta).
 Proof. exact B3_stands_for_Z3. Qed.
 
+(* any further quadratic / cubic level (Fp4, Fp6, Fp12) built on dictionaries that stand for each other *)
+Theorem C16_BQ_stands_for : forall T U (B : Fops T) (G : Fops U) nr,
+  stands_for B G -> stands_for (BQ B nr) (BQ G nr).
+Proof. exact (@BQ_stands_for). Qed.
+Theorem C16_BC_stands_for : forall T U (B : Fops T) (G : Fops U) nr,
+  stands_for B G -> stands_for (BC B nr) (BC G nr).
+Proof. exact (@BC_stands_for). Qed.
+
 (* ---------- prime fields ---------- *)
 (* Montgomery constants match the modulus; N is the minimal limb count *)
 Theorem C16_mont_consts : forall p n r r2 inv, mont_consts_ok p n r r2 inv = true ->
@@ -89,6 +97,13 @@ Theorem C16_sqrt_precomp : forall p g kind v, sqrt_precomp_ok p g kind v = true 
   (p mod 4 <> 3 /\ kind = 1 /\ exists s q tm, v = [s; q; tm] /\ 2 < p /\ 0 < s /\ 0 <= tm /\
      p - 1 = 2 ^ s * (2 * tm + 1) /\ q = g ^ (2 * tm + 1) mod p /\ q ^ (2 ^ (s - 1)) mod p = p - 1).
 Proof. exact sqrt_precomp_spec. Qed.
+
+(* FftField constants of an extension field: the embedded base-prime-field constant (c, 0, .., 0), Options as lists *)
+Theorem C16_fft_embeds : forall x c deg, embeds_ok x c deg = true -> x = c :: repeat 0 (Z.to_nat deg - 1).
+Proof. exact embeds_ok_spec. Qed.
+Theorem C16_fft_opt_embeds : forall o c deg, opt_embeds_ok o c deg = true ->
+  (o = [] /\ c = []) \/ (exists v, c = [v] /\ o = [v :: repeat 0 (Z.to_nat deg - 1)]).
+Proof. exact opt_embeds_ok_spec. Qed.
 
 (* ---------- curve groups, GLV, pairing parameter sets (integer level) ---------- *)
 Theorem C16_cofactor_inv : forall r h hinv, cofactor_inv_ok r h hinv = true ->
@@ -148,6 +163,17 @@ Proof. exact (@nonzero_ok_spec). Qed.
 Theorem C16_mul_pow_is : forall T U (B : Fops T) (G : Fops U), stands_for B G ->
   forall a b e c, mul_pow_is B a b e c = true -> 0 <= e /\ fmul G (el G a) (fpow G (el G b) e) = el G c.
 Proof. exact (@mul_pow_is_spec). Qed.
+(* FftField roots of unity of an extension field have the exact stated order in that field *)
+Theorem C16_fft_root_order : forall T U (B : Fops T) (G : Fops U), stands_for B G ->
+  forall root s, fft_root_ok B root s = true ->
+  0 < s /\ fpow G (el G root) (2 ^ s) = el G [1] /\ fpow G (el G root) (2 ^ (s - 1)) = el G [-1].
+Proof. exact (@fft_root_ok_spec). Qed.
+Theorem C16_fft_large_order : forall T U (B : Fops T) (G : Fops U), stands_for B G ->
+  forall w s b k, fft_large_ok B w s b k = true ->
+  let n := 2 ^ s * b ^ k in
+  0 < s /\ 1 < b /\ 0 < k /\ fpow G (el G w) n = el G [1] /\
+  fpow G (el G w) (n / 2) <> el G [1] /\ fpow G (el G w) (n / b) <> el G [1].
+Proof. exact (@fft_large_ok_spec). Qed.
 (* simplified SWU: g(b/(ZETA a)) is a square, so the exceptional input u = 0 is mapped to a curve point *)
 Theorem C16_swu_exceptional : forall T U (B : Fops T) (G : Fops U), stands_for B G ->
   forall q a b z, swu_exceptional_ok B q a b z = true ->
@@ -367,3 +393,8 @@ Example C16_ex_sw_te : sw_te_ok (B1 Dump_ed_on_bls12_381.fq_MODULUS) Dump_ed_on_
     Dump_ed_on_bls12_381.te_MONT_COEFF_B Dump_ed_on_bls12_381.sw_COEFF_A Dump_ed_on_bls12_381.sw_COEFF_B
     Dump_ed_on_bls12_381.sw_GENERATOR_X Dump_ed_on_bls12_381.sw_GENERATOR_Y = true.
 Proof. vm_compute. reflexivity. Qed.
+(* F_49 = F_7[u]/(u^2 - 3): 6 = -1 has order 2; F_13^2: 5 has order 4, 4 = 2^2 * 3^0 ... large root 2 of order 12 = 2^2 * 3 *)
+Example C16_ex_fft_root : fft_root_ok (BQ (B1 13) [2]) [5; 0] 2 = true /\ fft_large_ok (BQ (B1 13) [2]) [2; 0] 2 3 1 = true.
+Proof. vm_compute. split; reflexivity. Qed.
+Example C16_ex_fft_embed : embeds_ok [5; 0; 0] 5 3 = true /\ opt_embeds_ok [[2; 0]] [2] 2 = true /\ opt_embeds_ok [] [] 2 = true.
+Proof. vm_compute. repeat split; reflexivity. Qed.
